@@ -194,7 +194,7 @@ CONTRACTS = init_contracts + [ivar_1d, cov_1d]
 CALLEES = {D + "t": t_prop, "RVData.t": t_prop}
 ASSUMPTIONS = ["astropy: Time(x).tcb.mjd is elementwise pure (identity on TCB-MJD inputs); Quantity indexing keeps the unit; u.quantity_input only rejects wrong units",
                "numpy: boolean-mask indexing = gather at where(mask); argsort is a sorting permutation (ties in any order); isfinite is elementwise"]
-NOT_DECIDED = ["Time inputs in other scales/formats (conversion to TCB MJD is astropy's)", "np.linalg.inv for covariance ivar"]
+NOT_DECIDED = ["Time inputs in other scales/formats (conversion to TCB MJD is astropy's)", "that np.linalg.inv returns the inverse (library contract)"]
 
 
 # ---- copy() and slicing: the constructor call seen through __init__'s own contract (proved above) -------------------------------------
@@ -342,3 +342,27 @@ for _kind in ("1d", "cov"):
 for _c in getitem_contracts:
     _c.callees = {D + "t": t_prop, "RVData.t": t_prop, "thejoker.data.RVData": ctor_full, "thejoker.data.RVData.__init__": ctor_full}
 CONTRACTS += getitem_contracts
+
+
+# ---- ivar for a full covariance: the matrix inverse of the covariance VALUES, as a quantity in the inverse of the covariance's OWN unit -------------
+def _nomodel(*a, **k):
+    return lambda f: f
+
+
+@_nomodel("is_inverse_of_", doc="spec: the array is np.linalg.inv of the given array (ghost link set by the library model of inv)")
+def _is_inv(ex, path, args, kwargs, node, fn):
+    return getattr(args[0], "inverse_of", None) is args[1]
+
+
+def _inv_model(ex, path, args, kwargs, node, fn):
+    X = args[0]
+    r = fresh_arr("inv", 2, "real", list(X.shape))
+    r.inverse_of = X
+    return r
+
+
+ivar_cov = Contract(D + "ivar", PROPERTY, params={"self": built("cov", "Time")}, cases=[{"_name": "covariance"}],
+                    ensures={"inverse-of-the-covariance-values": "is_inverse_of_(result.value, self.rv_err.value)",
+                             "in-the-inverse-of-the-covariance's-own-unit": "result.unit.dim == (2, -2, 0) and result.unit.scale * self.rv_err.unit.scale == 1"})
+ivar_cov.lib = dict(LIB, **{"is_inverse_of_": _is_inv, "numpy.linalg.inv": _inv_model})
+CONTRACTS += [ivar_cov]
